@@ -741,6 +741,10 @@ type ConcConfig struct {
 	G           int  `json:"g"`
 	ShareTarget bool `json:"shareTarget"`
 	ShareOpts   bool `json:"shareOpts"`
+	// PadDefaults: every goroutine's target is built from the default options preceded by repetitions of one value
+	// option (folding makes them void) so that the list has 5 or 7 entries - lengths for which a list built with
+	// append has spare capacity that concurrent calls must not write their own options into
+	PadDefaults bool `json:"padDefaults"`
 }
 
 // RunConcurrent lets G goroutines perform the call of scenario s at the same time.  Converters are always
@@ -789,8 +793,25 @@ func RunConcurrent(s Scenario, c ConcConfig, r *rand.Rand, gid func() int, regis
 	sharedOpts := mkOpts()
 	targets := make([]*am.Func, c.G+1)
 	opts := make([][]am.Arg, c.G+1)
+	shared := b.Target
+	if c.PadDefaults && len(s.Inputs) > 0 {
+		// the first input, given once more (as a default it is overridden by itself or by the call's own option)
+		pad := apiArg(s.Inputs[0], vals[0], 1)
+		want := 5 + 2*r.Intn(2)
+		for want < len(b.Defaults)+1 {
+			want += 2
+		}
+		var padded []am.Arg
+		for len(padded)+len(b.Defaults) < want {
+			padded = append(padded, pad)
+		}
+		padded = append(padded, b.Defaults...)
+		if t, err := env.Build(0, s.Target, padded...); err == nil {
+			shared = t
+		}
+	}
 	for k := 1; k <= c.G; k++ {
-		targets[k] = b.Target
+		targets[k] = shared
 		if !c.ShareTarget {
 			// a private target built from the SAME default option slice (shared backing array)
 			if targets[k], err = env.Build(0, s.Target, b.Defaults...); err != nil {
